@@ -63,6 +63,9 @@ let judges : (string * (sx -> verdict)) list = [
   "C05", judge_C05;
   "solve", judge_solve_case;
   "C03", judge_C03;
+  "C04", judge_C04;
+  "C09", judge_C09;
+  "C10", judge_C10;
 ]
 
 let () =
